@@ -653,7 +653,7 @@ def check_parse(fx, rep, rule):
         return
     rep.fn(p)
     b = fx.bodies[p]
-    sy = S.Sym(fx, opaque=lambda q: False)
+    sy = S.Sym(fx, opaque=lambda q: False, inline_mut=True, thread_places=True)     # a cursor object with `&mut self` readers is evaluated through
     try:
         res = sy.eval_body(b)
     except S.Undecidable as e:
@@ -774,9 +774,31 @@ def check_self_test(fx, rep, rule):
         return
     rep.fn(p)
     bodies = [fx.bodies[p]] + fx.closures_of(p)
+    # private helpers that exist only for the self-test (every caller is the self-test itself) are part of it
+    cg = fx.callgraph()
+    callers = {}
+    for q_, edges_ in cg.items():
+        for c_, r_, _n in edges_:
+            for t_ in (r_, c_):
+                if t_ in fx.bodies:
+                    callers.setdefault(t_, set()).add(q_)
+    inc = {b_["path"] for b_ in bodies}
+    grew = True
+    while grew:
+        grew = False
+        for q_ in sorted(inc):
+            for c_, r_, _n in cg.get(q_, ()):
+                for t_ in (r_, c_):
+                    if t_ in fx.bodies and t_ not in inc and fx.bodies[t_]["krate"] == "proguard" and fx.bodies[t_].get("kind") in ("Fn", "AssocFn") \
+                            and not fx.bodies[t_].get("reachable_pub") and callers.get(t_, set()) <= inc:
+                        inc.add(t_)
+                        rep.fn(t_)
+                        bodies += [fx.bodies[t_]] + fx.closures_of(t_)
+                        inc |= {b_["path"] for b_ in fx.closures_of(t_)}
+                        grew = True
     n_assert = 0
     for b in bodies:
-        fam = C.family_of(fx, fx.bodies[p])
+        fam = C.family_of(fx, fx.bodies[b["path"]] if b.get("kind") in ("Fn", "AssocFn") else fx.bodies[p])
         for n, parents in F.walk_with_parents(b["body"]):
             if not (n.get("k") == "Call" and "fn" in n):
                 continue
